@@ -6,13 +6,14 @@ cd "$(dirname "$0")/.."
 ids="$*"
 [ -n "$ids" ] || ids=$(./check list | awk '{print $1}')
 rc=0
+W=${VERIF_WORKROOT:-.work}; mkdir -p "$W"
 for id in $ids; do
   s=$(date +%s)
-  ./check "$id" "$tier" > ".work/runall-$id-$tier.log" 2>&1
+  ./check "$id" "$tier" > "$W/runall-$id-$tier.log" 2>&1
   c=$?
   e=$(date +%s)
   echo "== $id $tier exit=$c wall=$((e-s))s"
-  grep -E "^(VIOLATION|KNOWN-FINDING|BROKEN|part )" ".work/runall-$id-$tier.log" | cut -c1-220
+  grep -E "^(VIOLATION|KNOWN-FINDING|BROKEN|part )" "$W/runall-$id-$tier.log" | cut -c1-220
   [ $c -eq 0 ] || rc=$c
 done
 exit $rc
